@@ -42,6 +42,8 @@ Proof.
   - apply mono_actions_list; assumption.
   - apply resp_skip_all_semis; [apply Rlim_cursor|apply Rlim_set_idx].
   - apply resp_lookahead; [apply Rlim_cursor|assumption|assumption].
+  - apply resp_dialect_is.
+  - apply resp_ask_flag.
 Qed.
 
 (** State restoration holds for every interface program, whatever its speculation sites. *)
@@ -121,6 +123,8 @@ Proof.
   - apply frame_actions_list; assumption.
   - apply frame_skip_all_semis.
   - apply frame_lookahead; assumption.
+  - apply frame_dialect_is.
+  - apply frame_ask_flag.
 Qed.
 
 (** * The property, in the form of the brief: for all limits n <= m, the run under n ends in
@@ -154,7 +158,7 @@ Proof. intros Hp d s Hn. destruct (iface_frame okm oke A p Hp d s Hn) as (_ & _ 
 Definition swallow_witness : M bool :=
   o <- maybe (guard (ret tt)) ;; ret (match o with Some _ => true | None => false end).
 Definition empty_state : mstate := {| toks := []; idx := 0; pst := Normal; tc := false; depth := 0 |}.
-Definition dial0 : dial := {| d_tc := false; d_proj_tc := false; d_reserved := [] |}.
+Definition dial0 : dial := mk_dial false false [].
 
 Lemma swallow_witness_iface : IfaceAny _ swallow_witness.
 Proof.
